@@ -1357,7 +1357,7 @@ def par_6c(ctx, rep):
     rep.rule('PAR-6c', 'in Grammar.parse the error_recovery argument is used only as the keyword of the parser constructor '
                        'and in argument validation that raises: the token stream and the text are the same in both modes')
     GRAMMAR = 'parso/grammar.py'
-    f = ctx.prog.func(GRAMMAR, 'Grammar.parse')
+    f = ctx.view(ctx.prog.func(GRAMMAR, 'Grammar.parse'))      # the steps parse was split into are read in place
     if 'error_recovery' not in f.all_params():
         raise AnalysisError('PAR-6c: Grammar.parse has no error_recovery parameter')
     n = 0
